@@ -19,10 +19,24 @@ import time
 from dtsim import core, render
 from dtsim.core import EXIT_HARNESS, EXIT_OK, EXIT_VIOLATION, Chooser, HarnessError
 
-PRELUDE = "from typing import *\nimport typing\n"
+PRELUDE = "from typing import *\nimport typing\nimport os\n"
 
 
 # ------------------------------------------------------------------------------ corpus
+def add_computed_default(ch, label, desc, p_=0.15):
+    """A default that is computed, not a literal (a call, an attribute, arithmetic): Python evaluates it at definition time;
+    a source-to-source tool can only carry the expression."""
+    if not ch.chance(label + ".computed", p_):
+        return
+    cands = [p for p in desc["params"] if p["default"] is not None and not p.get("doc_announces_default")]
+    if cands:
+        p = ch.choice(label + ".computedwhich", cands)
+        base = (p["typ"] or "").replace("Optional[", "").rstrip("]")
+        p["default"] = {"code": ch.choice(label + ".computedexpr", {"int": ["os.cpu_count()", "2 ** 10", "len('abc')"], "str": ["os.getcwd()", "os.path.join('a', 'b')", "'x' * 3"],
+                                                                   "float": ["1 / 3", "float('inf')"], "bool": ["not False", "bool(os.sep)"]}.get(base, ["os.environ.get('HOME')"]))}
+        p["computed"] = True
+
+
 def gen_fn_job(ch, jid, label, allow_stale_docs=False):
     """A user-written function/method with a docstring documenting all / some / none of its parameters,
     in or out of signature order."""
@@ -69,6 +83,7 @@ def gen_fn_job(ch, jid, label, allow_stale_docs=False):
                     alt = {"int": "7", "float": "0.75", "bool": "True", "str": '"other"'}.get(type(val).__name__, "7")
                     p["doc"] += ". In legacy mode " + other[0].lower() + other[1:] % alt
                 p["doc_announces_default"] = True
+    add_computed_default(ch, label, desc)
     extra_documented = []
     if allow_stale_docs and ch.chance(label + ".stale", 0.2):
         # stale documentation: names the docstring still describes although the signature no longer has them
@@ -80,7 +95,8 @@ def gen_fn_job(ch, jid, label, allow_stale_docs=False):
                                  body=["total = 0"] if ch.chance(label + ".body", 0.3) else None, extra_documented=extra_documented)
     truth = {"names": names + ([desc["kwargs"]] if desc.get("kwargs") else []),
              "documented": documented, "style": style, "inline": inline, "ftype": ftype, "kwonly": kwonly,
-             "params": {p["name"]: {"typ": p["typ"], "doc": p["doc"], "default": p["default"], "announces": bool(p.get("doc_announces_default"))} for p in desc["params"]}}
+             "params": {p["name"]: {"typ": p["typ"], "doc": p["doc"], "default": p["default"], "announces": bool(p.get("doc_announces_default")),
+                                     "computed": bool(p.get("computed"))} for p in desc["params"]}}
     return {"id": jid, "kind": "parse_function", "src": src, "name": fname, "truth": truth,
             "inmem": ch.chance(label + ".inmem", 0.12)}
 
@@ -144,6 +160,7 @@ def gen_hop_job(ch, jid, label):
     """src(kind A) -> parse -> emit(kind B) -> text"""
     desc = render.gen_desc(ch, "conservative", 1, 4, label)
     desc["returns"] = None
+    add_computed_default(ch, label, desc)
     a = ch.choice(label + ".a", ["class", "function", "argparse"])
     b = ch.choice(label + ".b", ["class", "function", "argparse", "docstring_rest", "docstring_numpydoc", "docstring_google"])
     names = [p["name"] for p in desc["params"]]
@@ -163,6 +180,7 @@ def gen_hop_group(ch, jid0, label):
     each must give the output it gives alone."""
     desc = render.gen_desc(ch, "conservative", 1, 4, label)
     desc["returns"] = None
+    add_computed_default(ch, label, desc)
     a = ch.choice(label + ".a", ["class", "function", "function", "argparse"])
     names = [p["name"] for p in desc["params"]]
     if a == "class":
@@ -364,7 +382,7 @@ def _norm_prose(s):
     return " ".join((s or "").split())
 
 
-def c07_check_function(job, ir, sig_names, sig_params):
+def c07_check_function(job, ir, sig_names, sig_params, live=False):
     """Clauses 1-4 of C07 for a parsed function.  Returns list of (clause, detail, extra sig fields)."""
     out = []
     t = job["truth"]
@@ -396,6 +414,14 @@ def c07_check_function(job, ir, sig_names, sig_params):
         if sp["has_default"] and not (t["params"].get(n) or {}).get("announces"):
             if "default" not in p:
                 out.append(("3-default", "%s: signature default %r is missing from the parsed interface" % (n, sp["default"]), {"how": "missing", "documented": _docmode(t)}))
+            elif (t["params"].get(n) or {}).get("computed"):
+                # only the expression can be carried; what is asserted is that a default is recorded at all, as source text
+                # (from a live function: as source text or as the value Python computed from it)
+                same_value = live and type(p["default"]) is type(sp["default"]) and p["default"] == sp["default"]
+                if not ((isinstance(p["default"], str) and p["default"].startswith("```")) or same_value):
+                    out.append(("3-default", "%s: the computed signature default is recorded as %s, not as source text" % (n, type(p["default"]).__name__),
+                                {"how": "computed->%s" % type(p["default"]).__name__, "documented": _docmode(t), "style": t["style"],
+                                 "announce_in_doc": any(x.get("announces") for x in t["params"].values()), "parsed_placeholder": False}))
             else:
                 d = p["default"]
                 if sp["default"] is None:
@@ -414,13 +440,15 @@ def c07_check_function(job, ir, sig_names, sig_params):
                          "parsed_placeholder": False}))
         if sp["annotation"] is not None and not (t["params"].get(n) or {}).get("announces"):
             if _ws(p.get("typ")) != _ws(sp["annotation"]):
-                out.append(("3-annotation", "%s: parsed type %r, signature annotation %r" % (n, p.get("typ"), sp["annotation"]), {"documented": _docmode(t)}))
+                out.append(("3-annotation", "%s: parsed type %r, signature annotation %r" % (n, p.get("typ"), sp["annotation"]),
+                            {"documented": _docmode(t), "computed_default": bool((t["params"].get(n) or {}).get("computed")), "parsed_type_missing": p.get("typ") is None}))
         # clause 4: prose attached to the parameter it names, and to no other
         if n in t["documented"]:
             if not t["params"][n].get("announces") and _norm_prose(p.get("doc")) != _norm_prose(t["params"][n]["doc"]):
                 out.append(("4-prose", "%s: parsed prose %r, documented prose %r" % (n, p.get("doc"), t["params"][n]["doc"]), {"style": t["style"]}))
             if not t["inline"] and t["params"][n]["typ"] and _ws(p.get("typ")) != _ws(t["params"][n]["typ"]):
-                out.append(("4-doctype", "%s: parsed type %r, documented type %r" % (n, p.get("typ"), t["params"][n]["typ"]), {"style": t["style"]}))
+                out.append(("4-doctype", "%s: parsed type %r, documented type %r" % (n, p.get("typ"), t["params"][n]["typ"]),
+                            {"style": t["style"], "computed_default": bool(t["params"][n].get("computed")), "parsed_type_missing": p.get("typ") is None}))
         elif p.get("doc"):
             out.append(("4-prose-misattributed", "%s is not documented but got prose %r" % (n, p.get("doc")), {"style": t["style"]}))
     return out
@@ -619,7 +647,7 @@ class Replica(object):
         ann = _annotations_from_source(fn_node)
         for n in params:
             params[n]["annotation"] = None  # the in-memory route renders annotation objects; only names/order/defaults/prose are compared
-        for clause, detail, extra in c07_check_function(job, ir, names, params):
+        for clause, detail, extra in c07_check_function(job, ir, names, params, live=True):
             if clause.startswith("4-doctype"):
                 continue
             self.add_violation("C07", job, clause, detail, dict(extra, route="inmem"))
